@@ -930,6 +930,34 @@ class Gen:
                    let(rt, bin_("add", v(ri), lit("u64", 1)), mut=False), asg(rs, bin_("add", v(rs), bin_("mul", v(ri), v(rt)))), asg(ri, v(rt))])},
                tup([v(ri), v(rs)])]
         out.append({"name": "case_rotate", "body": block(ss7)})
+
+        # (8) degenerate control flow: conditionals whose arms are empty or identical, on conditions that are constant
+        # only after aggregates are split (a literal's field), constant at once, or known only at run time;
+        # loops that never run or leave at once
+        et, ec, ei, ea = ("p%s%d" % (c, seed) for c in "uvwy")
+        flag = r.random() < 0.5
+        lim = r.randint(1, 9)
+        tt = {"t": "tuple", "es": [T("bool"), T("u64")]}
+        empty = block([])
+        ifs = lambda c, t_, f_: {"k": "expr", "e": {"k": "if", "c": c, "t": t_, "f": f_}}
+        ss8 = [let(et, {"k": "tuple", "es": [boolean(flag), lit("u64", lim)]}, mut=False, ty=None),
+               ifs({"k": "field", "e": v(et), "i": 1}, empty, empty),
+               {"k": "log", "e": {"k": "field", "e": v(et), "i": 2}},
+               let(ec, {"k": "call", "f": "id_bool", "args": [boolean(not flag)]}, mut=False, ty="bool"),
+               ifs(v(ec), empty, empty),
+               ifs(boolean(True), empty, empty),
+               ifs({"k": "un", "e": {"k": "field", "e": v(et), "i": 1}}, empty, block([{"k": "log", "e": lit("u64", 71)}])),
+               let(ei, lit("u64", 0)),
+               {"k": "while", "c": boolean(False), "b": block([asg(ei, bin_("add", v(ei), lit("u64", 1)))])},
+               {"k": "while", "c": bin_("lt", v(ei), {"k": "field", "e": v(et), "i": 2}), "b": block([
+                   ifs(bin_("eq", v(ei), lit("u64", 3)), block([{"k": "break"}]), empty),
+                   ifs({"k": "field", "e": v(et), "i": 1}, empty, empty),
+                   asg(ei, bin_("add", v(ei), lit("u64", 1)))])},
+               let(ea, {"k": "if", "c": v(ec), "t": block([], v(ei)), "f": block([], v(ei))}, mut=False),
+               tup([v(ei), v(ea), {"k": "match", "e": v(ec), "arms": [{"p": {"k": "bool", "v": True}, "b": lit("u64", 5)},
+                                                                  {"p": {"k": "wild"}, "b": lit("u64", 5)}]}])]
+        ss8[0]["ty"] = tt
+        out.append({"name": "case_empty", "body": block(ss8)})
         return out
 
     def main_fn(self):
